@@ -166,6 +166,7 @@ PROPS = {
             'the recent-bytes window itself (unit ring): FixedRingBuffer push / pop / iterate against "the retained bytes, oldest first"; after any sequence of reads and read-aheads the window is the last RING_BUFFER_SIZE bytes read from the source, its first line number has advanced by exactly the lines that ended in front of it - a line ends at LF or at a CR not followed by LF, as the scanner and Location::line count them -, its offset by exactly the bytes that left it, and it ends where reading stopped; get_recent returns a piece of that window whose start line is the line of its first byte and whose offsets bracket it',
             'from_reader_with_options feeds the recent-bytes window with the DECODED text that locations refer to (statement fragment from_reader_with_options#ring: the decoder is put in front of the ring; F30), against an assumed one-line contract of the encoding_rs_io builder and of SharedRingReader / SharedRingReaderHandle (what the ring holds is what its inner reader delivers: proved for RingReader in unit ring)',
             'crop_source_window splits lines at LF only in text without a lone CR (F29): has_lone_cr / lone_cr_to_lf are assumed there and checked on their real text by a bounded-only harness in every run (all strings up to 8 characters over a five-symbol alphabet) - bounded, not proved',
+            'line_col_to_byte_offset_with_starts: the offset is on a char boundary inside the reported line and is exactly (column - 1) characters after that line\'s start; next_char_boundary: the end of the one-character marker; and the part of Snippet::fmt_or_fallback and of fmt_snippet_window_with_mapping_or_fallback between the line table and the horizontal crop (statement fragments, the fall-back returns turned into None): the vertical window is the reported line +- 2, it starts at a line start, and the marker span handed on starts at the reported column of the reported line inside that window and covers no or one character',
             'col_to_byte_offset_in_line: Some(i) iff 1 <= col <= chars+1 and i is exactly the byte offset of that character (unit crop)',
             'line_starts: exactly 0 and the offset after every line feed, in order, all on char boundaries',
             'crop_line_by_cols: the result is exactly the requested column window of the line, with an ellipsis on each clipped side, and the returned LineCrop matches (start byte, prefix bytes)',
@@ -173,7 +174,7 @@ PROPS = {
             'crop_source_window: every string slice is in range and on a char boundary, every index in bounds, no overflow; the vertical window holds the error line and at most two lines either side; on the error line nothing left of error column + radius is removed',
         ],
         not_covered=['UTF-8 validity of the sanitised bytes (the lossy fallback is therefore not proved dead)',
-                     'that the rebased span still points at the reported column (only its bounds are proved), Snippet::fmt_or_fallback, annotate-snippets rendering; reflected keys, formatter messages, miette; SharedRingReader (Rc<RefCell>) and the use of the snapshot in src/lib.rs attach_snippet'],
+                     'that the span rebased by crop_window_text (horizontal crop of very long lines) still points at the reported column (only its bounds are proved; the span handed to it is proved to), annotate-snippets rendering; reflected keys, formatter messages, miette; SharedRingReader (Rc<RefCell>) and the use of the snapshot in src/lib.rs attach_snippet'],
         assumptions=['String::into_bytes / from_utf8 shims (contracts/snippet.shim.rs)',
                      'str slicing / find / strip / char_indices / chars().count() shims (contracts/crop.shim.rs): slicing panics exactly when an end is not a char boundary or the range is inverted',
                      'a str has at most isize::MAX bytes (assumed allocation invariant); UTF-8 self-synchronisation (an ASCII byte of a valid encoding is a whole character) is PROVED from vstd\'s definition of encode_utf8 (lemma_ascii_byte_char)'],
